@@ -14,8 +14,8 @@ ASSUMPTIONS = ["well-separated premise enforced by the generator: animal centres
                "the oracle network's PAF width is chosen from the two strides (sigma = max(1.5*paf_stride, 3) input px) - the network is free to be ideal, the claim is about the decoder",
                "tolerance per axis: (0.5*cms_stride + a)/(input_scale*eff_scale) original px with a = 0.35 + the explicit integer-size rounding of the resizing steps (vf/e2e.py:tol); RGB pipeline"]
 SHARDS = {"quick": 8, "thorough": 16}
-N = {"quick": 280, "thorough": 9000}
-BUDGET = {"quick": 110, "thorough": 1700}
+N = {"quick": 280, "thorough": 54000}
+BUDGET = {"quick": 110, "thorough": 600}
 TIMEOUT = {"quick": 800, "thorough": 3400}
 SELF_SHARDED = True
 KEY_LABELS = "labelsreader-path-skips-scaling-and-stride-padding"
